@@ -79,6 +79,19 @@ def dropped_tokens(r):
             continue        # a tuple index written as a field name: kept as a number, not as a token
         if re.fullmatch(r"\d+\.\d+", text) and all(("(unnamed %d " % int(x)) in have for x in text.split(".")):
             continue        # `.0.1` lexes as a float literal and becomes two tuple indices
+        # syn re-spans the tokens of a NEGATIVE literal it parsed in pattern position inside a user expression (a closure parameter
+        # `|-5| ..`): `-` and `5` both come back with the span of the whole `- 5`.  The token is there when the same text occurs in the
+        # tree with a span that contains the written position
+        ls, cs, le, ce = (int(x) for x in pos.split("."))
+        hexed = vlib.hx(text)[1:]
+        found = False
+        for m in re.finditer(r"x" + re.escape(hexed) + r"@(\d+)\.(\d+)\.(\d+)\.(\d+)", have):
+            a, b, c, d = (int(x) for x in m.groups())
+            if (a, b) <= (ls, cs) and (le, ce) <= (c, d):
+                found = True
+                break
+        if found:
+            continue
         missing.append("`%s` at %s" % (text, pos))
     return missing
 
@@ -98,6 +111,21 @@ SLICE_PROGRAMS = [
     ("let v = W { items: vec![1, 2, 3] };", "v", "_ { items: [_, .., _, ..], .. }"),
     ("let v = vec![vec![1], vec![2]];", "v", "[[.., ..], ..]"),
     ("let v = vec![vec![1], vec![2]];", "v", "#([.., ..], ..)"),
+    # the listed malformations under the REAL compiler, written so that the assertion would be well typed (and true) if the
+    # offending tokens were dropped or ignored: a macro that stops looking at them compiles these (in-process, Span::join and the
+    # fork / unexpected-token machinery behave differently from a stable rustc, so the in-process run alone is not enough)
+    ("let v = P { x: 1, y: 2, z: 3 };", "v", "P { x: 1, .., y: 2 }"), ("let v = P { x: 1, y: 2, z: 3 };", "v", "P { x: 1, .., y: 2, z: 3 }"),
+    ("let v = P { x: 1, y: 2, z: 3 };", "v", "_ { x: 1, .., y: 2 }"), ("let v = P { x: 1, y: 2, z: 3 };", "v", "_ { x: 1, .., y: 2, z: 3 }"),
+    ("let v = P { x: 1, y: 2, z: 3 };", "v", "P { .., x: 1 }"), ("let v = P { x: 1, y: 2, z: 3 };", "v", "P { x: 1, .. y: 2 }"),
+    ("let v = vec![1, 2, 3];", "v", "#(1, .., 2)"), ("let v = vec![1, 2, 3];", "v", "#(1, .., 2, 3)"), ("let v = vec![1, 2, 3];", "v", "#(.., 1)"),
+    ("let v = BTreeMap::from([(\"a\", 1), (\"b\", 2)]);", "v", "#{ \"a\": 1, .., \"b\": 2 }"),
+    ("let v = BTreeMap::from([(\"a\", 1), (\"b\", 2)]);", "v", "#{ .., \"a\": 1, \"b\": 2 }"),
+    ("let v = Some(P { x: 1, y: 2, z: 3 });", "v", "Some(P { x: 1, .., y: 2 })"), ("let v = Some(P { x: 1, y: 2, z: 3 });", "v", "Some(P { x: 1, .., y: 2, z: 3 })"),
+    ("let v = (P { x: 1, y: 2, z: 3 }, 1);", "v", "(P { x: 1, .., y: 2, z: 3 }, 1)"), ("let v: Result<Vec<i32>, ()> = Ok(vec![1, 2, 3]);", "v", "Ok(#(1, .., 2, 3))"),
+    ("let v = (BTreeMap::from([(\"a\", 1), (\"b\", 2)]), 0);", "v", "(#{ \"a\": 1, .., \"b\": 2 }, 0)"),
+    ("let v = vec![P { x: 1, y: 2, z: 3 }];", "v", "[P { x: 1, .., y: 2, z: 3 }]"), ("let v = W { items: vec![1, 2, 3] };", "v", "W { items: #(1, .., 2, 3) }"),
+    ("let v = (1, 2);", "v", "(0: 1, 0: 2)"), ("let v = (1, 2);", "v", "(1: 2, 1)"), ("let v = Some(7);", "v", "Some(1: 7)"),
+    ("let v = W { items: vec![1, 2, 3] };", "v", "W { items.get(0 7): Some(1), .. }"), ("let v = W { items: vec![1, 2, 3] };", "v", "W { items[0 7]: 1, .. }"),
 ]
 SLICE_CONTROL = [
     ("let v = vec![1, 2, 3];", "v", "[1, .., 3]"),
@@ -107,8 +135,17 @@ SLICE_CONTROL = [
 
 
 def slice_program(setup, value, pattern):
-    return ("use assert_struct::assert_struct;\n#[derive(Debug)] struct W { items: Vec<i32> }\n"
+    return ("use assert_struct::assert_struct;\nuse std::collections::BTreeMap;\n#[derive(Debug)] struct W { items: Vec<i32> }\n#[derive(Debug)] struct P { x: i32, y: i32, z: i32 }\n"
             "fn main() { %s assert_struct!(%s, %s); }\n" % (setup, value, pattern))
+
+
+def rustc_accepted_malformed(tag="c15m"):
+    """the typed malformed programs (tokens after `..`, misplaced indices, leftover tokens in argument lists) that COMPILE under rustc"""
+    typed = [p for p in SLICE_PROGRAMS if not (p[2].count("..") > 1 and "{" not in p[2] and "#" not in p[2] and "(" not in p[2].replace("Some(", "").replace("([", "["))]
+    typed = [p for p in SLICE_PROGRAMS if p[2] in {q[2] for q in SLICE_PROGRAMS[12:]}]
+    out = e2e.compile_many([slice_program(*p) for p in typed], run=False, tag=tag)
+    e2e.cleanup(tag)
+    return [p for p, o in zip(typed, out) if o["compiled"]], len(typed)
 
 
 def run(res):
@@ -177,7 +214,8 @@ def run(res):
     res.obligations.append("direct:slice-with-more-than-one-rest-rejected(%d programs)" % len(SLICE_PROGRAMS))
     for p in accepted[:2]:
         failing += 1
-        res.violation("failing-input", "a slice pattern with more than one `..` compiles: the extra `..` is reinterpreted instead of rejected",
+        res.violation("failing-input", "a malformed pattern (%s) compiles under rustc: the offending tokens are reinterpreted or dropped instead of rejected"
+                      % ("more than one `..` in a slice" if p[2].count("..") > 1 and "[" in p[2] and "{" not in p[2] and "#" not in p[2] else "tokens after `..`, an index that does not match its position, or leftover tokens in an argument list"),
                       {"program": slice_program(*p), "pattern": p[2]})
     if control_bad:
         raise vlib.CheckError("control programs with a single `..` do not compile: the e2e harness is broken: %s" % control_bad[:1])
